@@ -68,7 +68,7 @@ CHECKS = {
          "deterministic simulation: multi-process S0 schedules over the real store with real flock, OS-level write attribution", "DESIGN.md §6.1 C41", "dsim-store"),
  "C42": ("exploration",
          "Seeded search over interleavings of 2-4 clients on LocalBlobstore (separate instances on one directory, file-operation granularity, emulated blocking flock, simulated nanosecond mtimes as versions) and InMemoryBlobstore (call granularity): Get / CheckAndPutManifest histories are checked with porcupine against a versioned register and every version must read back with the contents written under it; byte ranges (prefix, inner, suffix, negative offsets) and Concatenate ride along against a byte-slice model; a third of the runs put NewNoConjoinBSStore on top and run the C02 committer + fresh-reader workload with the C02 oracle.",
-         "The git-backed and cloud blobstores are not covered (need a git subprocess / network service outside the simulator). mtime-as-version is asserted for a monotone clock with nanosecond stamps only. Sampling of schedules.",
+         "The git-backed blobstore is covered in one run of sixteen (quick) / seven (thorough): 2-3 GitBlobstore clients with local repositories of their own on one bare remote, real git subprocesses, the scheduler parks a client before its fetch / push / update-ref / commit-tree / write-tree subprocess; its read-side fetch de-duplication window is switched off. Cloud blobstores are not covered (network service outside the simulator). mtime-as-version is asserted for a monotone clock with nanosecond stamps only. Sampling of schedules.",
          "deterministic simulation: seeded S1 scheduler over real blobstores + porcupine linearizability check against a versioned register", "DESIGN.md §6.1 C42", "dsim-store"),
  "C20": ("exploration",
          "Seeded search over interleavings of 2-4 sessions issuing Commit, CommitWithWorkingSet, FastForward, SetHead, Tag, Delete, UpdateWorkingSet and atomic whole-map reads through the real datas.Database, either sharing one database object (parked in the window between reading the store root and the compare-and-swap) or as separate processes on one directory (parked at file operations); the history is checked with porcupine against a map dataset-id -> address whose conditional operations require the state the caller observed and whose refusals change nothing; non-forcing moves must go to descendants.",
@@ -96,8 +96,8 @@ CHECKS = {
          "deterministic simulation: seeded statement-level interleaving + branch merges, independent constraint evaluator over committed state", "DESIGN.md §6.3 C24", "dsim-sql"),
  "C28": ("exploration",
          "2-4 sessions spread over three branches of one production SQL engine, two AUTO_INCREMENT tables; seeded INSERT forms (NULL / 0 / omitted id, multi-row, mixed explicit+generated, explicit above and below the sequence), START TRANSACTION / COMMIT / ROLLBACK, dolt_checkout to another branch, dolt_branch, DELETE of the newest rows, clean restarts (which end the server lifetime and reset the oracle); every generated id is read back through its row's unique tag and must be distinct from and larger than every id generated before by any session on any branch, and larger than every explicit value accepted before on any branch.",
-         "Statement-level interleaving only (S0): the per-table mutex inside SequenceTracker.Next is exercised sequentially; races inside one INSERT are not explored. TRUNCATE / ALTER ... AUTO_INCREMENT / branch deletion are not generated.",
-         "deterministic simulation: seeded statement-level interleaving across sessions and branches, history oracle over generated values", "DESIGN.md §6.3 C28", "dsim-sql"),
+         "Three quarters of the runs interleave at statement level (S0). A quarter are a race mode: 2-3 inserting sessions are tasks of the S1 scheduler with scheduling points inside SequenceTracker.Next (after the per-table lock, before each store of the sequence; overlay hook, nil outside a simulation; waiters of the keyed mutex park) - interleavings elsewhere inside an INSERT are not explored. TRUNCATE / ALTER ... AUTO_INCREMENT / branch deletion are not generated.",
+         "deterministic simulation: seeded statement-level interleaving across sessions and branches + seeded S1 scheduler with scheduling points inside SequenceTracker.Next, history oracle over generated values", "DESIGN.md §6.3 C28", "dsim-sql"),
  "C33": ("exploration",
          "Two branches edited by their own sessions behind the production SQL engine: seeded row DML, ADD/DROP COLUMN, RENAME TABLE, DROP/CREATE TABLE, dolt_commit (recorded in the reference model with the table's name, schema and rows), tags and branches created at randomly chosen old commits, uncommitted changes, dolt_gc and clean restarts; every recorded commit is later read AS OF its hash / a tag / a branch, through the revision database name, and through dolt_history_<table> filtered to the commit, and must return exactly the recorded rows, or be refused where the table was absent.",
          "History-table reads are limited to commits of the reader's branch in which the table had its present name. AS OF timestamps are not generated.",
